@@ -280,16 +280,20 @@ class Driver:
         self._do(['getrule', r.reg, kb.reg, key, index], go, lambda h: H.dump_rule(self.hp.read_rule(h)))
         return r
 
-    def loadkb(self, text):
-        """load_kb_from_file on an in-memory file (mirsym) / a temp file (native)"""
+    def loadkb(self, text, into=None):
+        """load_kb_from_file on an in-memory file (mirsym) / a temp file (native); into: a copy of that knowledge base is loaded into"""
         r = self.new(None, 'kb')
         def go():
             self.m.vfs['<file>'] = RStr(list(text))
-            k = self.m.call('HashMap::new', [])
+            if into is not None:
+                from mirsym.models import deep_clone
+                k = deep_clone(self.m, into.h)
+            else:
+                k = self.m.call('HashMap::new', [])
             o = self.m.call('rule_reader::load_kb_from_file', [Ptr(Cell(k)), StrRef(RStr('<file>'))])
             r.h = k
             return None if o.vidx == 0 else H.as_chars_str(o.fields[0].v)
-        res = self._do(['loadkb', r.reg, text], go, lambda e: 'Ok' if e is None else 'Err:' + e)
+        res = self._do(['loadkb', r.reg, text] + ([into.reg] if into is not None else []), go, lambda e: 'Ok' if e is None else 'Err:' + e)
         return r, res
 
     def query(self, terms):
